@@ -111,6 +111,10 @@ pub fn rotation(sp: &SpecP, cfg: &CfgP) -> Option<(Criterion, Naming, Cleanup)> 
     out
 }
 
+/// `use_windows_line_ending()` for the writers built in this case (op `CRLF`)
+static CRLF: std::sync::atomic::AtomicBool = std::sync::atomic::AtomicBool::new(false);
+fn crlf() -> bool { CRLF.load(std::sync::atomic::Ordering::SeqCst) }
+
 static BG_SENT: std::sync::atomic::AtomicUsize = std::sync::atomic::AtomicUsize::new(0);
 static BG_WINDOW: std::sync::atomic::AtomicBool = std::sync::atomic::AtomicBool::new(false);
 static BG_DONE: std::sync::atomic::AtomicUsize = std::sync::atomic::AtomicUsize::new(0);
@@ -126,6 +130,9 @@ pub fn builder(dir: &Path, sp: &SpecP, cfg: &CfgP, bg_cleanup: bool, mode: Optio
     b = b.write_mode(mode.unwrap_or(match cfg.cap { None => WriteMode::Direct, Some(c) => WriteMode::BufferDontFlushWith(c) }));
     if cfg.symlink {
         b = b.create_symlink(dir.join("current.link"));
+    }
+    if crlf() {
+        b = b.use_windows_line_ending();
     }
     b
 }
@@ -147,6 +154,9 @@ pub fn logger(dir: &Path, sp: &SpecP, cfg: &CfgP, mode: Option<WriteMode>, errch
     l = l.write_mode(mode.unwrap_or(match cfg.cap { None => WriteMode::Direct, Some(c) => WriteMode::BufferDontFlushWith(c) }));
     if cfg.symlink {
         l = l.create_symlink(dir.join("current.link"));
+    }
+    if crlf() {
+        l = l.use_windows_line_ending();
     }
     l.build().expect("Logger::build")
 }
@@ -678,6 +688,7 @@ fn execute_inner(ctx: &mut Ctx, lines: &[String]) -> Vec<String> {
         truncating: false,
     };
     let mut h = Hist::default();
+    CRLF.store(false, std::sync::atomic::Ordering::SeqCst);
     let mut bg_lockstep = false;
     let mut bg_adversarial = false;
     let mut nocheck_foreign = false;
@@ -709,6 +720,8 @@ fn execute_inner(ctx: &mut Ctx, lines: &[String]) -> Vec<String> {
             // the time zone of the process (set at start from FVH_TZ); the virtual clock is given in
             // LOCAL time, so a correct logger behaves the same in every zone
             ["NOTE", "tz", z] => { if std::env::var("TZ").as_deref() == Ok(*z) { "ok".into() } else { "bad-op zone of the process differs".into() } }
+            // the records of this case end with CR LF (`use_windows_line_ending`)
+            ["NOTE", "crlf"] => { CRLF.store(true, std::sync::atomic::Ordering::SeqCst); "ok".into() }
             ["NOTE", "nocheck-foreign"] => { f.foreign_content.clear(); nocheck_foreign = true; "ok".into() }
             ["NOTE", ..] => "ok".into(),
             ["SPEC", rest @ ..] if rest.len() == 5 => {
@@ -766,7 +779,7 @@ fn execute_inner(ctx: &mut Ctx, lines: &[String]) -> Vec<String> {
                     let (b, h) = logger(&dir, &f.spec, &f.cfg, f.mode, &f.errchan);
                     f.lg = Some((b, vec![h]));
                 }
-                let payload = String::from_utf8(bytes[..bytes.len() - 1].to_vec()).unwrap();
+                let payload = String::from_utf8(bytes[..bytes.len() - if crlf() { 2 } else { 1 }].to_vec()).unwrap();
                 with_clock(now, || f.lg.as_ref().unwrap().0.log(&Record::builder().level(log::Level::Info).target("t").args(format_args!("{}", payload)).build()));
                 let ev = ech.new_events();
                 // no fault is injected in these histories: every record whose log call returned counts
@@ -783,6 +796,41 @@ fn execute_inner(ctx: &mut Ctx, lines: &[String]) -> Vec<String> {
             ["LSHUT"] => {
                 ctx.report.count("op.LSHUT");
                 if let Some((_, hs)) = &f.lg { hs[0].shutdown(); }
+                h.unflushed = false;
+                "ok".into()
+            }
+            // two shutdown() calls that overlap in time (two threads on the same handle); the writer
+            // thread is slowed down so that a backlog exists while they run. Each caller looks at the
+            // files the moment ITS call has returned.
+            ["LSHUT2"] => {
+                ctx.report.count("op.LSHUT2");
+                if let Some((_, hs)) = &f.lg {
+                    let expected = h.stream().len() as u64;
+                    flexi_logger::verif_hooks::set_point_handler(Some(Arc::new(|name| {
+                        if name == "write.before" && std::thread::current().name().is_some_and(|n| n.contains("async")) {
+                            std::thread::sleep(std::time::Duration::from_micros(400));
+                        }
+                    })));
+                    let sizes: Vec<u64> = std::thread::scope(|sc| {
+                        let js: Vec<_> = (0..2).map(|_| {
+                            let hd = hs[0].clone();
+                            let d = dir.clone();
+                            sc.spawn(move || {
+                                hd.shutdown();
+                                std::fs::read_dir(&d).map(|rd| rd.flatten().filter_map(|e| e.metadata().ok()).filter(|m| m.is_file()).map(|m| m.len()).sum::<u64>()).unwrap_or(0)
+                            })
+                        }).collect();
+                        js.into_iter().map(|j| j.join().unwrap_or(0)).collect()
+                    });
+                    flexi_logger::verif_hooks::set_point_handler(None);
+                    if !h.lossy && !h.faulty && f.foreign.is_empty() {
+                        for (i, sz) in sizes.iter().enumerate() {
+                            if *sz < expected {
+                                ctx.report.fail(&case_id, "shutdown-returned-early", &format!("line {li}: shutdown() has returned to caller {i} of two overlapping callers, but only {sz} of {expected} accepted bytes were in the log files at that moment"));
+                            }
+                        }
+                    }
+                }
                 h.unflushed = false;
                 "ok".into()
             }
@@ -893,7 +941,7 @@ fn execute_inner(ctx: &mut Ctx, lines: &[String]) -> Vec<String> {
                         let mut ww = w.clone();
                         std::io::Write::write(&mut ww, &bytes).map(|_| ())
                     } else {
-                        let le: &[u8] = b"\n";
+                        let le: &[u8] = if crlf() { b"\r\n" } else { b"\n" };
                         assert!(bytes.ends_with(le), "W payload must end with the line ending");
                         let payload = String::from_utf8(bytes[..bytes.len() - le.len()].to_vec()).expect("utf8 payload");
                         LogWriter::write(&*w, &mut DeferredNow::new(), &Record::builder().level(log::Level::Info).args(format_args!("{}", payload)).build())
@@ -1108,7 +1156,24 @@ fn execute_inner(ctx: &mut Ctx, lines: &[String]) -> Vec<String> {
                 if v.is_empty() { "-".into() } else { v.join(",") }
             }
             ["LINK"] => match std::fs::read_link(dir.join("current.link")) {
-                Ok(p) => hexs(&p.file_name().unwrap().to_string_lossy()),
+                Ok(p) => {
+                    let target = p.file_name().unwrap().to_string_lossy().to_string();
+                    // oracle (C16): the link resolves to the file that is currently written to. Judged
+                    // where the harness can tell that file independently: unbuffered, and the newest
+                    // file of the family ends with the record written last (no rotation since).
+                    if f.cfg.symlink && f.w.is_some() && !buffered && !is_async && !h.lossy && !h.faulty && f.moved == 0 && !h.reset_seen {
+                        if let Some((last, _)) = h.recs.last() {
+                            let order = f.reading_order();
+                            if let Some(newest) = order.last() {
+                                let ends = |n: &String| { let c = std::fs::read(dir.join(n)).unwrap_or_default(); !c.is_empty() && c.ends_with(last) };
+                                if ends(newest) && &target != newest {
+                                    ctx.report.fail(&case_id, "link-not-current", &format!("line {li}: the symlink resolves to {target:?}, but the record written last is at the end of {newest:?} (files {order:?})"));
+                                }
+                            }
+                        }
+                    }
+                    hexs(&target)
+                }
                 Err(_) => "-".into(),
             },
             ["EXIST", sel, custom] => {
